@@ -154,7 +154,10 @@ def project(segs, stream):
 
 def eval_model(ctx, variants):
     """variants: list of (case, lates, aligned) -> list of decoded predictions (or None)."""
-    shards = pl.shard(list(enumerate(variants)), 40)
+    # heavy cases (megabyte streams) are spread over the shards
+    order = sorted(enumerate(variants), key=lambda t: -(t[1][0]["size"] * n_attempts(t[1][0])))
+    nsh = max(1, min(14, (len(order) + 7) // 8))
+    shards = [order[i::nsh] for i in range(nsh)]
 
     def ev(t):
         idx, sh = t
@@ -166,7 +169,11 @@ def eval_model(ctx, variants):
             return None, out[-1500:]
         return parse_rows(out), None
     res = [None] * len(variants)
-    for sh, (rows, err) in zip(shards, pl.run_parallel(ev, list(enumerate(shards)), workers=12)):
+    import time as _t
+    t0 = _t.time()
+    results = pl.run_parallel(ev, list(enumerate(shards)), workers=14)
+    ctx.cov["model_eval_s"] = round(ctx.cov.get("model_eval_s", 0) + _t.time() - t0, 1)
+    for sh, (rows, err) in zip(shards, results):
         if rows is None:
             ctx.fail("correspondence", "the model could not be evaluated on a shard of cases (coqc failed)", {"log": err})
             continue
